@@ -799,11 +799,25 @@ def _process_step_result_tick(
                 else None
             )
             if retries is not None:
-                _next_params = inspect.signature(retries.next).parameters
-                _seed_kwarg = {"seed": jitter_seed} if "seed" in _next_params else {}
-                delay = retries.next(
-                    elapsed_time, failures, result.exception, **_seed_kwarg
-                )
+                # The retry policy is user code: if it raises (or returns something
+                # that is not a delay) treat it as "do not retry", so the run still
+                # fails through the normal path with the step's own exception and a
+                # terminal WorkflowFailedEvent instead of escaping the reducer.
+                try:
+                    _next_params = inspect.signature(retries.next).parameters
+                    _seed_kwarg = (
+                        {"seed": jitter_seed} if "seed" in _next_params else {}
+                    )
+                    delay = retries.next(
+                        elapsed_time, failures, result.exception, **_seed_kwarg
+                    )
+                    if delay is not None:
+                        delay = float(delay)
+                except Exception:
+                    logger.exception(
+                        "Retry policy of step %s failed; not retrying", tick.step_name
+                    )
+                    delay = None
             else:
                 delay = None
             if delay is not None:
